@@ -211,17 +211,19 @@ func isBoolTerm(t *Term) bool {
 	return false
 }
 
-// addConjuncts: truth(and(xs)) gives every x; !truth(or(xs)) gives every !x.
-func addConjuncts(facts Facts, a *Atom) {
+// addConjuncts: truth(and(xs)) gives every x; !truth(or(xs)) gives every !x. Returns the atoms added.
+func addConjuncts(facts Facts, a *Atom) []*Atom {
 	if a.Pred != "truth" || len(a.Args) != 1 {
-		return
+		return nil
 	}
+	var added []*Atom
 	t := a.Args[0]
 	if t.Op == "and" && !a.Neg {
 		for _, x := range t.Args {
 			if c := atomOf(x, a.Site); c != nil {
 				facts.Add(c)
-				addConjuncts(facts, c)
+				added = append(added, c)
+				added = append(added, addConjuncts(facts, c)...)
 			}
 		}
 	}
@@ -230,10 +232,12 @@ func addConjuncts(facts Facts, a *Atom) {
 			if c := atomOf(x, a.Site); c != nil {
 				n := c.Negate()
 				facts.Add(n)
-				addConjuncts(facts, n)
+				added = append(added, n)
+				added = append(added, addConjuncts(facts, n)...)
 			}
 		}
 	}
+	return added
 }
 
 // condAtom: the atom that holds on the true edge of an If.
@@ -269,9 +273,13 @@ func (f *Flow) edgeFacts(from *ssa.BasicBlock, succIdx int, out Facts) Facts {
 				return nil
 			}
 			res.Add(a)
-			addConjuncts(res, a)
+			conj := addConjuncts(res, a)
 			f.unitPropagate(res, a)
 			f.saturate(res)
+			// a conjunct may itself be a validator's verdict
+			for _, cj := range conj {
+				f.addDerived(res, cj)
+			}
 			// what a validator's verdict implies is materialised here, so that later writes kill it fact by fact
 			f.addDerived(res, a)
 		}
